@@ -1,0 +1,36 @@
+//go:build verif
+
+// Copyright 2023 StreamNative, Inc.
+//
+// Licensed under the Apache License, Version 2.0 (the "License");
+// you may not use this file except in compliance with the License.
+// You may obtain a copy of the License at
+//
+//     http://www.apache.org/licenses/LICENSE-2.0
+//
+// Unless required by applicable law or agreed to in writing, software
+// distributed under the License is distributed on an "AS IS" BASIS,
+// WITHOUT WARRANTIES OR CONDITIONS OF ANY KIND, either express or implied.
+// See the License for the specific language governing permissions and
+// limitations under the License.
+
+package server
+
+import (
+	"github.com/oxia-db/oxia/proto"
+	"github.com/oxia-db/oxia/server/kv"
+)
+
+// Verification harness access to the secondary-index read paths used by the leader controller.
+
+func VerifSecondaryIndexGet(req *proto.GetRequest, db kv.DB) (*proto.GetResponse, error) {
+	return secondaryIndexGet(req, db)
+}
+
+func VerifSecondaryIndexList(req *proto.ListRequest, db kv.DB) (kv.KeyIterator, error) {
+	return newSecondaryIndexListIterator(req, db)
+}
+
+func VerifSecondaryIndexRangeScan(req *proto.RangeScanRequest, db kv.DB) (kv.RangeScanIterator, error) {
+	return newSecondaryIndexRangeScanIterator(req, db)
+}
